@@ -88,6 +88,24 @@ CHECKS.update({
              "pool size."),
 })
 
+CHECKS.update({
+    "C13": dict(
+        text="A fraction grammar (8 remainder families with different "
+             "contracted/target splits x every set of <=2 (3) singles/doubles/"
+             "triples brackets with both signs and exponents 1..2 x ~10 "
+             "numerators with rational coefficients x prefactors) is passed "
+             "through EriOrbenergy split/recombine, canonicalize_sign, "
+             "permute_num, cancel_orb_energy_frac, symbolic_denominator, "
+             "use_symbolic/explicit_denominators (both directions), "
+             "factor_eri_parts, factor_denom and (block_)diagonalize_fock on "
+             "29 Fock inputs; values compared exactly as rational functions "
+             "of formal orbital energies.",
+        design="4 C13",
+        note="Documented refusals (RuntimeError 'Ambiguous signs', "
+             "Inputerror, NotImplementedError) are counted, not alarms. "
+             "Bounded: brackets with +-1 coefficients, <=3 brackets, N=2/3."),
+})
+
 NOT_YET = {}
 
 
